@@ -51,7 +51,8 @@ class JSONField(ABC):
         assert isinstance(lab, JSONField)
         inst = lab.__class__()
         for k, v in lab.__dict__.items():
-            inst.__setattr__(k, v)
+            # list-valued fields get their own list, so the new instance can be edited without touching the original
+            inst.__setattr__(k, list(v) if isinstance(v, list) else v)
         inst._set_fields(**kwargs)
         return inst
 
